@@ -315,6 +315,8 @@ def _eval_chunk(args):
                     out.extend(reduced)
                     continue
             p = {k: v for k, v in p.items() if k not in ("toks", "singles")}
+            if "pair" in p:
+                p["pair"] = list(p["pair"])
             out.append((p, sym))
     return len(progs), out
 
@@ -343,6 +345,8 @@ def run_roundtrip(prop: str, tier: str, seed: int, *, budget_s=None):
                 continue
             if p.get("lead_of") and p["lead_of"] in failing_texts:
                 continue  # fails without the leading whitespace as well: reported there
+            if p.get("singles_text") and any(t in failing_texts for t in p["singles_text"]):
+                continue  # one of the two gaps fails on its own: reported there
             sig = G.signature(p, sym)
             if sig not in by_sig:
                 by_sig[sig] = dict(check="roundtrip", signature=sig, what=f"{prop} {sym} on program {p['id']}",
